@@ -39,6 +39,7 @@ pub fn setup(name: &str, tier_depth: usize, max_rewinds: u32, wall: f64) -> (cra
         free_scans: true,
         segment_scans: false,
         max_run: if name == "mid" { 2 } else { usize::MAX },
+        witness_subset: 0,
         splits: match name {
             "tiny" | "small" => vec![],
             _ => vec![f + 107],
